@@ -1,8 +1,184 @@
-import OmplModel.Model.Grid
-/-! C13 property theorems (placeholder while the proofs are being written). -/
-namespace OmplModel.Props.C13
-open OmplModel.Grid
+import OmplModel.Proofs.GridComponents
+import OmplModel.Proofs.GridRun
+/-!
+# C13 — grid discretizations track cells, neighbours, borders and components exactly
 
-theorem clear_cells (g : GridB) : (clear g).cells = [] := rfl
+Property theorems over the executable model `OmplModel.Model.Grid` of `Grid.h` / `GridN.h` / `GridB.h`
+(the model follows the code with the F3 repair of `topInternal`/`topExternal`).  All are arithmetic-free
+([AF]): they hold for every dimension, every bounds / interior-limit setting, every update event and, except
+`tops_best`, every ordering functor (`tops_best` needs the functors to be strict weak orders).
+
+"Every history" = `run cfg ops` for an arbitrary list `ops` of protocol operations (`Op`: createCell+add of an
+absent coordinate, remove of a present cell, data change + update, data changes + updateAll, clear); the only
+side condition is `Op.valid`: a new coordinate has `dim` entries.
+-/
+namespace OmplModel.Props.C13
+open OmplModel.Grid OmplModel.Heap
+
+/-! ## Grid: lookups, neighbours, components (for every cell list with distinct coordinates) -/
+
+/-- lookups find exactly the cells present -/
+theorem has_iff (cells : List Cell) (x : Coord) : has cells x = true ↔ ∃ c ∈ cells, c.coord = x :=
+  OmplModel.Grid.has_iff
+
+theorem getCell_some {dim : Nat} {cells : List Cell} (h : WF dim cells) (x : Coord) (c : Cell) :
+    getCell cells x = some c ↔ c ∈ cells ∧ c.coord = x :=
+  getCell_eq_some_iff h.nodup
+
+/-- `neighbors(x)` consists of exactly the present cells whose coordinate differs from `x` by one in a single
+dimension, each listed once. -/
+theorem neighbors_exact {dim : Nat} {cells : List Cell} (h : WF dim cells) {x : Coord} (hx : x.length = dim) :
+    (∀ c, c ∈ neighbors dim cells x ↔
+      c ∈ cells ∧ c.coord.length = dim ∧ ∃ i, i < dim ∧
+        (c.coord.getD i 0 = x.getD i 0 - 1 ∨ c.coord.getD i 0 = x.getD i 0 + 1) ∧
+        ∀ j, j ≠ i → c.coord.getD j 0 = x.getD j 0) ∧
+    ((neighbors dim cells x).map (·.coord)).Nodup := by
+  refine ⟨fun c => ?_, neighbors_nodup hx⟩
+  rw [mem_neighbors_iff h.nodup, mem_neighborCoords_iff_differ hx]
+
+/-- the neighbour relation is symmetric -/
+theorem neighbors_symm {dim : Nat} {cells : List Cell} (h : WF dim cells) {a b : Cell} (ha : a ∈ cells)
+    (hb : b ∈ cells) : b ∈ neighbors dim cells a.coord ↔ a ∈ neighbors dim cells b.coord := by
+  rw [mem_neighbors_iff h.nodup, mem_neighbors_iff h.nodup]
+  exact ⟨fun h' => ⟨ha, neighborCoords_symm (h.len a ha) h'.2⟩, fun h' => ⟨hb, neighborCoords_symm (h.len b hb) h'.2⟩⟩
+
+/-- `components()` is the partition of the present cells into the classes of the reflexive-transitive closure
+of the neighbour relation: every cell is in exactly one component, exactly once (`flatten` is a permutation of
+the cell list); a component containing `a` contains exactly the cells reachable from `a`; no component is
+empty; components come in order of non-increasing size. -/
+theorem components_partition {dim : Nat} {cells : List Cell} (h : WF dim cells) :
+    (components dim cells).flatten.Perm cells ∧
+    (∀ comp ∈ components dim cells, ∀ a ∈ comp, ∀ b ∈ cells, (b ∈ comp ↔ Reach dim cells a.coord b.coord)) ∧
+    (∀ comp ∈ components dim cells, comp ≠ []) ∧
+    (components dim cells).Pairwise (fun a b => a.length ≥ b.length) :=
+  ⟨components_perm h, components_class h, components_ne_nil h, components_sorted⟩
+
+/-- non-vacuity: a 4-cell grid (a path of three cells and an isolated one) -/
+def sample : List Cell :=
+  [{ id := 0, coord := [0, 0], data := 5 }, { id := 1, coord := [5, 5], data := 1 },
+   { id := 2, coord := [0, 1], data := 2 }, { id := 3, coord := [-1, 1], data := 9 }]
+
+example : WF 2 sample := ⟨by decide, by decide⟩
+example : has sample [0, 1] = true ∧ has sample [1, 1] = false := by decide
+example : (neighbors 2 sample [0, 1]).map (·.id) = [0, 3] := by decide
+example : (neighbors 2 sample [0, 0]).map (·.id) = [2] ∧ (neighbors 2 sample [5, 5]).map (·.id) = [] := by decide
+
+/-! ## GridN / GridB: for every protocol history -/
+
+/-- every reachable state has distinct coordinates of the right length (so the `Grid` theorems above apply
+to it) -/
+theorem run_wf (cfg : Cfg) (ops : List Op) (hv : ∀ op ∈ ops, op.valid cfg.dim) : WF cfg.dim (run cfg ops).cells :=
+  ⟨(run_inv ops hv).nodup, (run_inv ops hv).len⟩
+
+/-- `GridNInv`: after every history each cell's counter equals the number of its present neighbours plus the
+number of dimensions in which it sits on a bound, and it is a border cell iff that count is below the limit. -/
+theorem gridN_count_border (cfg : Cfg) (ops : List Op) (hv : ∀ op ∈ ops, op.valid cfg.dim) :
+    ∀ c ∈ (run cfg ops).cells,
+      c.nbrs = (neighbors cfg.dim (run cfg ops).cells c.coord).length + boundaryDims cfg c.coord ∧
+      (c.border = true ↔ c.nbrs < cfg.limit) := by
+  intro c hc
+  have hi := run_inv ops hv
+  refine ⟨by rw [hi.count c hc, cnt_eq_neighbors], ?_⟩
+  rw [hi.border c hc]; simp
+
+/-- `GridBInv`: after every history the two queues together hold every cell exactly once (cell ids are
+distinct), the external queue holds exactly the border cells and the internal one exactly the others, with the
+cell's current data as the key. -/
+theorem gridB_one_queue (cfg : Cfg) (ops : List Op) (hv : ∀ op ∈ ops, op.valid cfg.dim) :
+    let g := run cfg ops
+    (qids g.external ++ qids g.internal).Perm (g.cells.map (·.id)) ∧ (g.cells.map (·.id)).Nodup ∧
+    (∀ c ∈ g.cells, (c.id ∈ qids g.external ↔ c.border = true) ∧ (c.id ∈ qids g.internal ↔ c.border = false)) ∧
+    g.external.items.Perm (side (·.border) g.cells) ∧ g.internal.items.Perm (side (fun c => !c.border) g.cells) := by
+  intro g
+  have hi : Inv cfg g := run_inv ops hv
+  exact ⟨hi.queues_perm, hi.idnd, fun c hc => ⟨hi.ext_iff_border hc, hi.int_iff_interior hc⟩, hi.ext, hi.int⟩
+
+/-- `countInternal() + countExternal() = size()` -/
+theorem counts_sum (cfg : Cfg) (ops : List Op) (hv : ∀ op ∈ ops, op.valid cfg.dim) :
+    countInternal (run cfg ops) + countExternal (run cfg ops) = (run cfg ops).cells.length := by
+  have hi := run_inv ops hv
+  have h := hi.queues_perm.length_eq
+  simp only [List.length_append, List.length_map, qids, Heap.items] at h
+  simp only [countInternal, countExternal]
+  rw [← Array.length_toList, ← Array.length_toList]
+  omega
+
+/-- the tops are the best cells: `topInternal()` is an interior cell such that no interior cell is better
+under `LessThanInternal`; if there is no interior cell it is a border cell such that no border cell is better
+under `LessThanExternal` (the fallback the code intends, F3); `none` only for an empty grid.  Symmetrically
+for `topExternal()`. -/
+theorem tops_best (cfg : Cfg) (ok : CmpOK cfg) (ops : List Op) (hv : ∀ op ∈ ops, op.valid cfg.dim) :
+    let g := run cfg ops
+    (match topInternal g with
+      | none => g.cells = []
+      | some i => ∃ c ∈ g.cells, c.id = i ∧
+          ((c.border = false ∧ ∀ c' ∈ g.cells, c'.border = false → cfg.ltI c'.data c.data = false) ∨
+           ((∀ c' ∈ g.cells, c'.border = true) ∧ c.border = true ∧
+              ∀ c' ∈ g.cells, c'.border = true → cfg.ltE c'.data c.data = false))) ∧
+    (match topExternal g with
+      | none => g.cells = []
+      | some i => ∃ c ∈ g.cells, c.id = i ∧
+          ((c.border = true ∧ ∀ c' ∈ g.cells, c'.border = true → cfg.ltE c'.data c.data = false) ∨
+           ((∀ c' ∈ g.cells, c'.border = false) ∧ c.border = false ∧
+              ∀ c' ∈ g.cells, c'.border = false → cfg.ltI c'.data c.data = false))) := by
+  intro g
+  have hi : Inv cfg g := run_inv ops hv
+  have ho : Ordered cfg g := run_ordered ok ops
+  obtain ⟨hEn, hEs⟩ := top_best_side (lt := cfg.ltE) hi.ext ok.kE ho.1
+  obtain ⟨hIn, hIs⟩ := top_best_side (lt := cfg.ltI) hi.int ok.kI ho.2
+  have hnil : (∀ c ∈ g.cells, c.border = false) → (∀ c ∈ g.cells, (!c.border) = false) → g.cells = [] := by
+    intro h1 h2
+    cases hcs : g.cells with
+    | nil => rfl
+    | cons c cs =>
+      have hc : c ∈ g.cells := by rw [hcs]; simp
+      have := h1 c hc; have := h2 c hc; simp_all
+  constructor
+  · unfold topInternal
+    cases hI : g.internal.top with
+    | some e =>
+      obtain ⟨c, hc, hp, hid, hbest⟩ := hIs e hI
+      exact ⟨c, hc, hid, Or.inl ⟨by simpa using hp, fun c' hc' hb' => hbest c' hc' (by simp [hb'])⟩⟩
+    | none =>
+      have hall := hIn hI
+      cases hE : g.external.top with
+      | some e =>
+        obtain ⟨c, hc, hp, hid, hbest⟩ := hEs e hE
+        exact ⟨c, hc, hid, Or.inr ⟨fun c' hc' => by simpa using hall c' hc', hp, hbest⟩⟩
+      | none => exact hnil (hEn hE) hall
+  · unfold topExternal
+    cases hE : g.external.top with
+    | some e =>
+      obtain ⟨c, hc, hp, hid, hbest⟩ := hEs e hE
+      exact ⟨c, hc, hid, Or.inl ⟨hp, hbest⟩⟩
+    | none =>
+      have hall := hEn hE
+      cases hI : g.internal.top with
+      | some e =>
+        obtain ⟨c, hc, hp, hid, hbest⟩ := hIs e hI
+        exact ⟨c, hc, hid, Or.inr ⟨hall, by simpa using hp, fun c' hc' hb' => hbest c' hc' (by simp [hb'])⟩⟩
+      | none => exact hnil hall (hIn hI)
+
+/-! non-vacuity: a concrete configuration (2-D, bounds [0,1]², limit 3, `<` on the data, event adds nothing)
+whose functors are strict weak orders, and a history that creates three cells and removes one. -/
+def cfg0 : Cfg :=
+  { dim := 2, bounds := some ([0, 0], [1, 1]), limit := 3,
+    ltE := fun a b => decide (a < b), ltI := fun a b => decide (a > b), ev := fun c => c.data }
+
+def ops0 : List Op := [.new [0, 0] 5, .new [0, 1] 7, .new [1, 0] 3, .rm [0, 1], .upd [0, 0] 9, .updAll [([1, 0], 4)]]
+
+example : ∀ op ∈ ops0, op.valid cfg0.dim := by simp [ops0, Op.valid, cfg0]
+example : CmpOK cfg0 :=
+  ⟨⟨fun a => by simp [cfg0], fun a b c => by simp [cfg0]; omega, fun a b c => by simp [cfg0]; omega⟩,
+   ⟨fun a => by simp [cfg0], fun a b c => by simp [cfg0]; omega, fun a b c => by simp [cfg0]; omega⟩⟩
+/-- the interior limit is crossed in both directions in this history: a lone corner cell has 0 neighbours + 2
+boundary dimensions = 2 < 3 (border); with one neighbour it is interior; once both neighbours are removed it is a
+border cell again. -/
+example : ((run cfg0 (ops0.take 1)).cells.map (fun c => (c.coord, c.nbrs, c.border))) = [([0, 0], 2, true)] := by
+  decide
+example : ((run cfg0 (ops0 ++ [.rm [1, 0]])).cells.map (fun c => (c.coord, c.nbrs, c.border, c.data))) =
+    [([0, 0], 2, true, 9)] := by decide
+example : ((run cfg0 (ops0.take 3)).cells.map (fun c => (c.coord, c.nbrs, c.border))) =
+    [([0, 0], 4, false), ([0, 1], 3, false), ([1, 0], 3, false)] := by decide
 
 end OmplModel.Props.C13
